@@ -476,6 +476,49 @@ def c09(res, wd):
                 "report frame, with the two checksums the games really saved (Monitor.tla EvFold/DetectV)")
 
 
+# ---------------------------------------------------------------------------------------------
+# C11: run-time input-delay changes
+# ---------------------------------------------------------------------------------------------
+
+EAGER = {"EagerNet": "TRUE", "LinkCap": 8, "InboxCap": 8, "Window": 2}
+
+
+def c11(res, wd):
+    variants = [("d012_f2", dict(EAGER, MaxFrame=2, DelayValues="{0, 1, 2}")),
+                ("d01_2locals", dict(EAGER, MaxFrame=2, DelayValues="{0, 1}", Peers="GenPeers21", NumPlayers=3))]
+    if res.tier == "thorough":
+        variants += [("d01_f3", dict(EAGER, MaxFrame=3, DelayValues="{0, 1}")),
+                     ("d012_f3_w1", dict(EAGER, MaxFrame=3, DelayValues="{0, 1, 2}", Window=1)),
+                     ("d02_lockstep", dict(EAGER, MaxFrame=3, DelayValues="{0, 2}", Window=0))]
+    model_session(res, wd, "C11", variants, {"C11", "C01", "C03"})
+    # regression / non-vacuity: the two pinned behaviours must violate the monitor in the model
+    engines.mc_system(res, wd, "pinned_fill", dict(EAGER, MaxFrame=3, DelayValues="{0, 1, 2}"),
+                      overrides={"FillFromQueue": "PinnedFalse"}, expect_violation=True)
+    engines.mc_system(res, wd, "pinned_blanks", dict(EAGER, MaxFrame=2, DelayValues="{0, 1, 2}", Peers="GenPeers21",
+                                                     NumPlayers=3),
+                      overrides={"SendLeadingBlanks": "PinnedFalse"}, expect_violation=True)
+    ns, depth = sizes(res.tier, (12, 100), (80, 160))
+    engines.s2i_runs(res, "C11", wd, "g2dly", {"MaxFrame": 8, "DelayValues": "{0, 1, 2, 3}", "MaxSteps": depth - 10},
+                     ns, depth, {"C11", "C01", "C03"})
+    engines.s2i_runs(res, "C11", wd, "g21dly", {"Peers": "GenPeers21", "NumPlayers": 3, "MaxFrame": 8,
+                                                "DelayValues": "{0, 2}", "MaxSteps": depth - 10},
+                     ns // 2, depth, {"C11", "C01", "C03"})
+    n, frames = sizes(res.tier, (14, 300), (100, 1500))
+    ps = plans.batch(res.seed * 1000 + 110, n, frames, fam=plans.delays)
+    ps += plans.batch(res.seed * 1000 + 111, max(3, n // 3), frames, fam=plans.delays, spectators=1, npeers=2)
+    ps += plans.batch(res.seed * 1000 + 112, max(3, n // 3), frames, fam=plans.delays, window=2, lat_lo=40, lat_hi=80)
+    engines.obs_runs(res, "C11", ps, {"C11", "C01", "C03", "C06"}, wd, "c11",
+                     nontrivial=lambda st, pl: st["verified"] >= 20)
+    res.rule = ("delay sequences 0..6 applied to any local player at any tick (also before the first frame, while "
+                "stalled, decrease-then-increase, two local players with different delays, spectators attached): "
+                "exhaustive in System.tla (reliable FIFO network, delays {0,1,2}, up to 3 frames, 1-2 local players) "
+                "with the monitor as invariant, TLC schedules replayed on the real sessions (Trace_Sys conformance), "
+                "random runs; the monitor compares every peer's final simulation with the owner-side truth defined by "
+                "the documented delay semantics (Props.tla Submit/SetDelay), and demands that no queued outgoing input "
+                "is at or below the last frame sent.  Two regression model runs with the pinned (pre-fix) behaviour "
+                "must violate the monitor.  non-trivial = >=20 frames verified final")
+
+
 CHECKS = {
     "C01": c01,
     "C02": c02,
@@ -485,6 +528,7 @@ CHECKS = {
     "C06": c06,
     "C07": c07,
     "C09": c09,
+    "C11": c11,
 }
 
 
